@@ -760,7 +760,10 @@ func (m *mp) reconcileProvisioner(keys []types.NamespacedName) (ran bool, create
 	go func() {
 		defer close(done)
 		if _, err := m.prov.Reconcile(m.ctx); err != nil {
-			panic(err)
+			if m.failCreate == 0 { // only the injected NodeClaim-create fault may surface here
+				panic(err)
+			}
+			m.reconcileErrs++
 		}
 	}()
 	for {
